@@ -29,6 +29,7 @@ type streamCase struct {
 	SENTok bool // SEN input stays inside sen.md (tokenizer compared too)
 	Padded bool
 	Used   int // history of the parser objects (frontends.go: feUsed)
+	Reuse  bool // the parsers' Reuse option (frontends.go: feReuse)
 	feat   map[string]any
 }
 
@@ -43,7 +44,7 @@ func (c *streamCase) render() any {
 	for _, s := range c.Scheds {
 		ss = append(ss, s.String())
 	}
-	return map[string]any{"family": c.Family, "input": in, "mode": []string{"single", "callback", "channel"}[c.Mode], "schedules": ss, "sweep": c.Sweep, "parser_history": []string{"fresh", "parsed another document before", "previous streamed call failed mid-document", "previous call failed after a complete document"}[c.Used]}
+	return map[string]any{"family": c.Family, "input": in, "mode": []string{"single", "callback", "channel"}[c.Mode], "schedules": ss, "sweep": c.Sweep, "parser_history": []string{"fresh", "parsed another document before", "previous streamed call failed mid-document", "previous call failed after a complete document"}[c.Used], "reuse_option": c.Reuse}
 }
 
 var bom = []byte{0xEF, 0xBB, 0xBF}
@@ -148,6 +149,7 @@ func drawStreamCase(t *rapid.T, forC09 bool) *streamCase {
 		if sim.Intn(t, 4, "usedparser") == 3 {
 			c.Used = 1 + sim.Intn(t, 3, "used")
 		}
+		c.Reuse = sim.Intn(t, 6, "reuse") == 5
 	}
 	switch fam {
 	case 0:
@@ -455,9 +457,9 @@ func propC03(cx *sim.Ctx) {
 	sim.Declare([]string{"cut_inside_string", "cut_inside_number", "cut_inside_literal", "cut_inside_whitespace", "cut_inside_unicode_escape", "cut_between_escape_pair", "cut_right_after_backslash", "cut_after_open_quote", "cut_after_minus", "cut_after_dot", "cut_after_e", "cut_after_exp_sign", "cut_right_after_newline", "cut_between_cr_lf", "cut_inside_bom", "cut_at_4096_multiple", "cut_at_4096_in_string", "cut_at_4096_in_number", "strict_json_vs_sen", "both_error_delivered_prefix_differs"}, []string{})
 	c := drawStreamCase(cx.T, false)
 	cx.Render(c.render)
-	cx.Key(c.Input, c.Mode, c.Used)
-	feUsed = c.Used
-	defer func() { feUsed = 0 }()
+	cx.Key(c.Input, c.Mode, c.Used, c.Reuse)
+	feUsed, feReuse = c.Used, c.Reuse
+	defer func() { feUsed, feReuse = 0, false }()
 	for _, s := range c.Scheds {
 		cx.Key(s.String())
 	}
